@@ -19,7 +19,42 @@ def _cls(prog, short, name):
     return m, c
 
 
+class _View:
+    """presents a typing result of the normal-form engine (E4t) with the attributes the layout rules read"""
+    pass
+
+
+def _as_v(t):
+    if t is None: return None
+    if t[0] == 'arr': return V('array', axes=list(t[1]))
+    if t[0] == 'tuple': return V('tuple', items=[_as_v(x) for x in t[1]])
+    if t[0] == 'labs': return V('list', space=t[1], elem=V('label', space=t[1]))
+    if t[0] == 'obj': return V('obj', cls=t[1], fields={})
+    return V('top')
+
+
 def analyse(prog):
+    """run every entry point once; returns {entry: object with .obs and the entry's results}.  The index spaces are inferred on the
+    normal forms of the term evaluator (cc.spacet); VERIF_E4=ast selects the older syntax-directed interpreter for comparison."""
+    import os
+    if os.environ.get('VERIF_E4') == 'ast': return analyse_ast(prog)
+    if hasattr(prog, '_spaces_v'): return prog._spaces_v
+    from . import spacerules_t as ST
+    raw = ST.analyse(prog)
+    out = {}
+    for name, e in raw.items():
+        v = _View(); v.obs = e.obs; v.signs = []
+        for attr in ('result_coef', 'result_rhs', 'result', 'sources'):
+            if hasattr(e, attr): setattr(v, attr, _as_v(getattr(e, attr)))
+        if name == 'wrapper' and getattr(e, 'result', None) is not None and e.result[0] == 'obj':
+            f = dict(e.result[2])
+            v.fields = {k: _as_v(e.ty.ty(f[k])) for k in 'ABCD' if k in f}
+        out[name] = v
+    prog._spaces_v = out
+    return out
+
+
+def analyse_ast(prog):
     """run every entry point once; returns {entry: Interp}"""
     if hasattr(prog, '_spaces'): return prog._spaces
     out = {}
